@@ -61,6 +61,7 @@ def run(ctx):
     specs += util.orderbook_tail_specs(ctx.seed, 10 if ctx.tier == 'quick' else 60, 'c07ob_', split=False)
     for sp in specs:
         sp['opts']['no_solve'] = True
+    specs = ctx.specs(specs)
     res = C.run_impl('portfolio', specs)
     parts = C.run_impl('assets', specs)
     exprs, owners = [], []
